@@ -27,6 +27,20 @@ def label_monitor(l):
     return None
 
 
+def replay(chk, path):
+    """bin/check C07 --replay <file>: the sessions of C07 are a fixed schedule per (seed, tier); the finding is
+    replayed by re-running that schedule with the seed and tier stored in the file (about a minute)."""
+    import json
+    with open(path) as f:
+        body = json.load(f)
+    chk.seed, chk.tier = body.get("seed", chk.seed), body.get("tier", chk.tier)
+    rp = body.get("replay") or {}
+    print("REPLAY of %s: re-running the C07 schedule with seed %s, tier %s; stored scenario: %s" % (
+        path, chk.seed, chk.tier, {k: rp.get(k) for k in ("variant", "drop", "post_drop", "ku_drop", "stage", "target", "mode",
+                                                       "captured", "side") if k in rp}), flush=True)
+    return run(chk)
+
+
 def run(chk):
     proved = chk.prove()
     out = vlib.out_path("c07")
